@@ -20,6 +20,13 @@
 (*                                 is fed to the endpoint's reader          *)
 (*     [op "ewc", side, on]        EnableWriteCompression(on)              *)
 (*     [op "scl", side, level]     SetCompressionLevel(level)              *)
+(*     [op "open", side]           w := NextWriter(TextMessage)            *)
+(*     [op "wr", side]             w.Write(some bytes)                     *)
+(*     [op "cls", side]            w.Close()                               *)
+(*   ewc / scl steps may stand between open and cls (a toggle INSIDE an    *)
+(*   open message); a "send" on a side whose writer is still open closes   *)
+(*   that message implicitly (observed as a Cls with implicit = TRUE       *)
+(*   directly before the Send).                                            *)
 (*                                                                         *)
 (* OBSERVATIONS (events of a recorded execution):                          *)
 (*   Handshake [ok, reqExt, respExt]  extension header lines on the wire   *)
@@ -32,6 +39,9 @@
 (*   Feed [side, comp, res]  res "ok" (delivered intact) | "mismatch" |    *)
 (*               "err"                                                     *)
 (*   EWC [side, on], SCL [side, level, err]                                *)
+(*   Open [side, err], Wr [side, n, err]                                   *)
+(*   Cls [side, implicit, n, rsv1, wireok, recv, werr]  like Send, for the *)
+(*        message written through the writer (n = bytes written to it)     *)
 (*                                                                         *)
 (* State of the envelope: ann "yes" | "no" | "any" (the 101 announced      *)
 (* permessage-deflate with both parameters; "any": its header is not       *)
@@ -39,16 +49,31 @@
 (* far about compression being in use: an endpoint compressing its output  *)
 (* or accepting compressed input - every further observation has to agree: *)
 (* "either both endpoints compress and accept compressed messages or       *)
-(* neither does").                                                         *)
+(* neither does").  ow[side]: the EnableWriteCompression values that were  *)
+(* in force at some moment since the side's open message writer was        *)
+(* obtained ({} = no writer open).  Whether a message is compressed is     *)
+(* decided once per message; when the setting was toggled inside the       *)
+(* message either decision is admitted, but the message on the wire must   *)
+(* be consistent (RSV1 and a deflate payload that inflates to what was     *)
+(* written, or no RSV1 and the plain payload) and the peer must decode it: *)
+(* "toggling write compression or the compression level on one side never  *)
+(* makes its output undecodable by the other".                             *)
 (***************************************************************************)
 EXTENDS WSTokens, TLC
 
 LibSides(mode) == CASE mode = "pair" -> {"c", "s"} [] mode = "offer" -> {"s"} [] OTHER -> {"c"}
 
-N0 == [hs |-> "none", ann |-> "any", comp |-> "unknown", wc |-> [c |-> TRUE, s |-> TRUE], dead |-> {}]
+N0 == [hs |-> "none", ann |-> "any", comp |-> "unknown", wc |-> [c |-> TRUE, s |-> TRUE], dead |-> {},
+       ow |-> [c |-> {}, s |-> {}]]
 
+(* "any": the header is not lexically well-formed, or it announces the     *)
+(* extension but violates RFC 6455 9.1 (a quoted value that is not a       *)
+(* token): a client may use or refuse it.  A lexically well-formed header  *)
+(* in which permessage-deflate with both parameters appears only INSIDE a  *)
+(* quoted string does not announce it ("no").                              *)
 Ann(respExt) == LET x == Extensions(respExt) IN
-                IF x.mal THEN "any" ELSE IF PmdBoth(x) THEN "yes" ELSE "no"
+                IF x.mal THEN "any"
+                ELSE IF PmdBoth(x) THEN (IF x.nontok THEN "any" ELSE "yes") ELSE "no"
 
 (* The handshake observation.                                              *)
 HandshakeAllowed(pr, ev) ==
@@ -58,7 +83,7 @@ HandshakeAllowed(pr, ev) ==
   \* a real Upgrader announces permessage-deflate only if enabled and offered,
   \* and what it announces is well-formed
   /\ (pr.mode \in {"pair", "offer"} /\ ev.ok) =>
-        /\ ~respX.mal
+        /\ ~respX.mal /\ ~respX.nontok
         /\ HasExt(respX, TokPmd) => (pr.uEn /\ (reqX.mal \/ HasExt(reqX, TokPmd)))
   \* valid handshakes succeed; a client may refuse a reply that carries
   \* extensions (RFC 6455 4.1: not offered / RFC 7692: unsupported parameters)
@@ -78,17 +103,32 @@ Agrees(pr, ns, o) ==
   /\ (pr.mode # "pair" /\ ~o) => ns.ann # "yes"
 Learn(ns, o) == [ns EXCEPT !.comp = IF o THEN "yes" ELSE "no"]
 
-SendAllowed(pr, ns, ev) ==
+(* One data message written by a library endpoint; wcs = the write          *)
+(* compression settings in force while it was written.                     *)
+MsgAllowed(pr, ns, ev, wcs) ==
   /\ ns.hs = "ok" /\ ev.side \in LibSides(pr.mode) /\ ev.side \notin ns.dead
   /\ ~ev.werr /\ ev.wireok
   /\ ev.recv \in {"ok", "na"}
   /\ ev.recv = "na" <=> pr.mode # "pair"
   /\ ev.rsv1 => ns.ann # "no"
   /\ ev.rsv1 => ns.comp # "no"
-  /\ (ns.wc[ev.side] /\ ev.n > 0) => Agrees(pr, ns, ev.rsv1)
-AfterSend(ns, ev) ==
-  IF ns.wc[ev.side] /\ ev.n > 0 THEN Learn(ns, ev.rsv1)
+  /\ (wcs = {TRUE} /\ ev.n > 0) => Agrees(pr, ns, ev.rsv1)
+AfterMsg(ns, ev, wcs) ==
+  IF wcs = {TRUE} /\ ev.n > 0 THEN Learn(ns, ev.rsv1)
   ELSE IF ev.rsv1 THEN Learn(ns, TRUE) ELSE ns
+
+(* WriteMessage: no writer of this side is open (an open one was closed    *)
+(* implicitly and reported as a Cls event before).                         *)
+SendAllowed(pr, ns, ev) == ns.ow[ev.side] = {} /\ MsgAllowed(pr, ns, ev, {ns.wc[ev.side]})
+AfterSend(ns, ev) == AfterMsg(ns, ev, {ns.wc[ev.side]})
+
+OpenAllowed(pr, ns, ev) ==
+  /\ ns.hs = "ok" /\ ev.side \in LibSides(pr.mode) /\ ev.side \notin ns.dead
+  /\ ns.ow[ev.side] = {} /\ ~ev.err
+AfterOpen(ns, ev) == [ns EXCEPT !.ow[ev.side] = {ns.wc[ev.side]}]
+WrAllowed(pr, ns, ev) == ns.hs = "ok" /\ ev.side \in LibSides(pr.mode) /\ ns.ow[ev.side] # {} /\ ~ev.err
+ClsAllowed(pr, ns, ev) == ns.ow[ev.side] # {} /\ MsgAllowed(pr, ns, ev, ns.ow[ev.side])
+AfterCls(ns, ev) == [AfterMsg(ns, ev, ns.ow[ev.side]) EXCEPT !.ow[ev.side] = {}]
 
 FeedAllowed(pr, ns, ev) ==
   /\ ns.hs = "ok" /\ ev.side \in LibSides(pr.mode) /\ ev.side \notin ns.dead
@@ -100,7 +140,8 @@ AfterFeed(ns, ev) ==
   IF ev.res = "ok" THEN n1 ELSE [n1 EXCEPT !.dead = @ \cup {ev.side}]
 
 ToggleAllowed(pr, ns, ev) == ns.hs = "ok" /\ ev.side \in LibSides(pr.mode)
-AfterEWC(ns, ev) == [ns EXCEPT !.wc[ev.side] = ev.on]
+AfterEWC(ns, ev) == [ns EXCEPT !.wc[ev.side] = ev.on,
+                                !.ow[ev.side] = IF @ = {} THEN {} ELSE @ \cup {ev.on}]
 
 -----------------------------------------------------------------------------
 (* The strict (implementation-shaped) model of the negotiation, used for   *)
